@@ -386,6 +386,10 @@ def run_sequence(case, k, rng, base, res, bump, tier):
             bad('outputs-do-not-build', run['detail'], stage=f'{build_detail(run["detail"])}:{seqkey}')
         elif run['status'] == 'run_fail':
             bad('outputs-fail-at-run-time', run['detail'])
+        elif info.get('rem_keeps_renamed_copy'):
+            # a subgraph duplication left a renamed copy of the kernel that RemoveKernel then removed by name: the
+            # copy rightly stays, the shared-body reference project cannot express that (built and run only)
+            bump('programs_run_without_reference_output')
         elif run['out'] != ref['out']:
             bad('run-output-differs', f'expected {ref["out"].split()} got {run["out"].split()}')
         else:
